@@ -90,9 +90,14 @@ static double area_g(const gh::Solvers& S, double lat, double azi) {
   double Q = S.b * S.b / 2 * (sphi / (1 - e2 * sphi * sphi) + x), nu = S.a / std::sqrt(1 - e2 * sphi * sphi);
   return std::sin(azi * DEG) / (nu * cphi) * (Q - c2 * sphi);
 }
-static Cond conditioning(const gh::Solvers& S, double lat1, double azi1, double lat2, double azi2, double m12, double M12, double M21) {
-  Cond c; double am = std::fabs(m12), D = am > 0 ? std::fabs(1 - M12 * M21) / am : 0;
-  c.m = std::max(1.0, std::max(std::fabs(M12), std::fabs(M21)));
+// s12abs = |s12| [m]; Dq = |1 - M12 M21|/|m12| when it is available in float128 (< 0: compute it here in double).  In double the
+// quotient is dominated by rounding for short segments, so it is capped by its analytic bound |dM12/ds2| <= Kmax |s12| max|M|.
+static Cond conditioning(const gh::Solvers& S, double lat1, double azi1, double lat2, double azi2, double m12, double M12, double M21, double s12abs, double Dq = -1) {
+  Cond c; double am = std::fabs(m12), amp = std::max(1.0, std::max(std::fabs(M12), std::fabs(M21)));
+  double Kmax = std::max(1 / (S.b * S.b), S.b * S.b / (S.a * S.a * S.a * S.a));
+  double D = Dq >= 0 ? Dq : (am > 0 ? std::fabs(1 - M12 * M21) / am : 0);
+  D = std::min(D, Kmax * s12abs * amp);
+  c.m = amp;
   c.M12 = std::max(1.0, S.b * std::max(D, gauss_K(S, lat1) * am));
   c.M21 = std::max(1.0, S.b * std::max(D, gauss_K(S, lat2) * am));
   c.S = std::max(1.0, std::max(std::fabs(area_g(S, lat1, azi1)), std::fabs(area_g(S, lat2, azi2))) / S.a);
@@ -100,7 +105,8 @@ static Cond conditioning(const gh::Solvers& S, double lat1, double azi1, double 
   return c;
 }
 static Cond cond_ref(const gh::Solvers& S, double lat1, double azi1, const ref::GeodPos<q128>& P) {
-  return conditioning(S, lat1, azi1, (double)P.lat2, (double)P.azi2, (double)P.m12, (double)P.M12, (double)P.M21);
+  double Dq = P.m12 != 0 ? (double)(ref::fabs(1 - P.M12 * P.M21) / ref::fabs(P.m12)) : 0;
+  return conditioning(S, lat1, azi1, (double)P.lat2, (double)P.azi2, (double)P.m12, (double)P.M12, (double)P.M21, std::fabs((double)P.s12), Dq);
 }
 
 struct Lib { double a12, lat2, lon2, azi2, s12, m12, M12, M21, S12; };
@@ -158,7 +164,9 @@ static void judge4(Ctx& c, const std::string& cls, const std::string& keybase, c
     if (plain) c.obs("S12 error/a [nm @WGS84 size, /K/len-scale] " + fam + " " + bucket, e * nrm);
     if (e > Ts) bad("S12", e, Ts);
   }
-  c.obs("conditioning multiplier applied to the tolerance (max of m12, M12, M21, S12) " + fam + " " + bucket, std::max(std::max(cd.m, cd.S), std::max(cd.M12, cd.M21)));
+  c.obs("conditioning multiplier on the m12 tolerance (inverse-truth: incl. the azimuth term) " + fam + " " + bucket, cd.m);
+  c.obs("conditioning multiplier on the M12/M21 tolerance (inverse-truth: incl. the azimuth term) " + fam + " " + bucket, std::max(cd.M12, cd.M21));
+  c.obs("conditioning multiplier on the S12 tolerance (inverse-truth: incl. the azimuth term) " + fam + " " + bucket, cd.S, w);
 }
 
 static J wit(const Case& k) { return J().f("a", k.e.a).f("f", k.e.f).f("lat1", k.lat1).f("lon1", k.lon1).f("azi1", k.azi1).b("arcmode", k.arcmode).f("len", k.len); }
@@ -283,8 +291,8 @@ template <class G> static void laws_for(Ctx& c, const Case& k, const char* fam, 
   if (!(finite4(p13) && finite4(p12))) { c.viol(std::string("law:C03/non-finite-output/") + fam, cls, w); return; }
   // 'generic' geodesic: its closest approach to a pole (a sin alp0) is more than 1000 x the position tolerance
   const bool generic = std::fabs(std::sin(std::remainder(k.azi1, 360.0) * DEG)) * std::cos(k.lat1 * DEG) * a > 1e3 * kt * scale(k.len);
-  Cond c13 = conditioning(S, k.lat1, k.azi1, p13.lat2, p13.azi2, p13.m12, p13.M12, p13.M21);
-  Cond c12 = conditioning(S, k.lat1, k.azi1, p12.lat2, p12.azi2, p12.m12, p12.M12, p12.M21);
+  Cond c13 = conditioning(S, k.lat1, k.azi1, p13.lat2, p13.azi2, p13.m12, p13.M12, p13.M21, std::fabs(p13.s12));
+  Cond c12 = conditioning(S, k.lat1, k.azi1, p12.lat2, p12.azi2, p12.m12, p12.M12, p12.M21, std::fabs(p12.s12));
   // ---- reversal: from point 3 with azi3 and -len13 (documented: m unchanged up to the sign of the distance, M12<->M21, S12 negated)
   {
     Lib r = call_direct(g, p13.lat2, p13.lon2, p13.azi2, k.arcmode, -len13);
@@ -316,7 +324,7 @@ template <class G> static void laws_for(Ctx& c, const Case& k, const char* fam, 
   {
     Lib p23 = call_direct(g, p12.lat2, p12.lon2, p12.azi2, k.arcmode, len23);
     if (!finite4(p23)) { c.viol(std::string("law:C03/non-finite-output/") + fam, cls, w); return; }
-    Cond c23 = conditioning(S, p12.lat2, p12.azi2, p23.lat2, p23.azi2, p23.m12, p23.M12, p23.M21);
+    Cond c23 = conditioning(S, p12.lat2, p12.azi2, p23.lat2, p23.azi2, p23.m12, p23.M12, p23.M21, std::fabs(p23.s12));
     double T12 = kt * scale(len12), T13 = kt * scale(len13), T23 = kt * scale(len23) + slack(p12, len23);
     double Tm12 = T12 * c12.m, Tm13 = T13 * c13.m, Tm23 = T23 * c23.m;
     double TM12 = T12 * c12.M12 / b, TM21 = T12 * c12.M21 / b, TM13 = T13 * c13.M12 / b, TM31 = T13 * c13.M21 / b, TM23 = T23 * c23.M12 / b, TM32 = T23 * c23.M21 / b;
